@@ -326,6 +326,19 @@ Fixpoint multiset_eqb (a b : list (path * leaf)) : bool :=
   | x :: r => match remove_one x b with Some b' => multiset_eqb r b' | None => false end
   end.
 
+(** A leaf below a fragment is addressed through the Go field that holds the fragment; when that
+    field's name had to be suffixed with underscores (a clash with another member of the struct),
+    the label differs from the fragment's own name by those underscores only.  The oracle compares
+    leaves modulo trailing underscores of fragment labels. *)
+Fixpoint strip_us_rev (r : bytes) : bytes :=
+  match r with
+  | c :: r' => if (c =? 95)%N then strip_us_rev r' else r
+  | [] => []
+  end.
+Definition strip_us (l : bytes) : bytes := rev (strip_us_rev (rev l)).
+Definition norm_step (s : pstep) : pstep := match s with PFrag f => PFrag (strip_us f) | _ => s end.
+Definition norm_leaves (l : list (path * leaf)) : list (path * leaf) := map (fun pl => (map norm_step (fst pl), snd pl)) l.
+
 Definition subset (a b : list (path * leaf)) : bool := forallb (fun x => existsb (pl_eqb x) b) a.
 Definition set_eqb (a b : list (path * leaf)) : bool := subset a b && subset b a.
 
@@ -503,7 +516,6 @@ Definition has_frag_leaf (l : list (path * leaf)) : bool :=
 
 Definition oracle_key (S : schema) (d : document) (specific : string) : string :=
   if negb (schema_loadable S) then "type-ref-deeper-than-introspection-query"
-  else if excl_member_clash S d then "member-name-clash"
   else if excl_decl_clash S d then "decl-name-clash"
   else specific.
 
@@ -531,8 +543,8 @@ Definition oracle_env (S : schema) (d : document) (o : opdef) (io : impl_obs) : 
                          | Some w =>
                              if negb (conforms S o w && json_eqb (json_of w) (ro_resp r)) then
                                Some (v_oracle_fail "response-not-shaped" [of_nat i])
-                             else if set_eqb (ro_leaves r) (expected S o w) then go (Datatypes.S i) rest
-                             else if subset (expected S o w) (ro_leaves r) then fail "leaf-not-selected"
+                             else if set_eqb (norm_leaves (ro_leaves r)) (norm_leaves (expected S o w)) then go (Datatypes.S i) rest
+                             else if subset (norm_leaves (expected S o w)) (norm_leaves (ro_leaves r)) then fail "leaf-not-selected"
                              else fail "leaf-lost-or-wrong"
                          | None => Some (v_oracle_fail "response-not-shaped" [of_nat i])
                          end
@@ -585,7 +597,7 @@ Definition check (c : sexp) : sexp :=
               if valid && negb is_linked then v_bad "valid-document-does-not-link"
               else if valid && decl_safe Sch d && excl_decl_clash Sch d then v_bad "decl-safe-does-not-exclude-clash"
               else
-              let m := generate_cli no_quirks Sch valid d in
+              let m := generate_real Sch valid d in
               let in_env := valid && env Sch d in
               let oracle :=
                 if negb valid then
@@ -643,6 +655,7 @@ Definition check (c : sexp) : sexp :=
                                       v_ok (["valid"; "generated"] ++
                                             (if in_env then ["in-envelope"] else ["outside-envelope"]) ++
                                             (if decl_safe Sch d then ["decl-safe"] else ["decl-unsafe-by-names"]) ++
+                                            (if excl_member_clash Sch d then ["member-names-suffixed"] else []) ++
                                             (if existsb (fun t => Nat.eqb (wrappers t) typeref_depth) (field_types Sch) then ["seven-wrappers"] else []) ++
                                             (if cb then ["compiles"] else ["does-not-compile"]) ++
                                             (if cb && negb (order_free d) then ["decode-not-compared-field-order-dependent"] else []) ++
